@@ -378,6 +378,8 @@ pub fn run_c12(args: &Args) -> Report {
 
 // ---------------------------------------------------------------- C16: validation on the HTTP entry paths
 
+const ABSENT: &str = "<a present value decoded as absent>";
+
 pub fn token_model(s: &str) -> bool {
     let b = s.as_bytes();
     let body = b.iter().take_while(|c| c.is_ascii_alphanumeric() || b"-._~+/".contains(c)).count();
@@ -429,6 +431,7 @@ fn token_paths(r: &mut Report, rt: &ConjureRuntime, s: &[u8]) {
             Ok(Ok(t)) if valid && t.as_str() == text => r.outcome("wire:valid-token-accepted-unchanged"),
             Ok(Ok(t)) if valid => r.violation(format!("C16|wire|{}|accepted-token-altered", path), format!("{}: token {:?} arrives as {:?}", path, text, t.as_str()), case),
             Ok(Ok(t)) => r.violation(format!("C16|wire|{}|invalid-token-accepted", path), format!("{}: {:?} is not a bearer token but is accepted (as {:?})", path, text, t.as_str()), case),
+            Ok(Err(e)) if e == ABSENT => r.violation(format!("C16|wire|{}|present-value-decoded-as-absent", path), format!("{}: the present value {:?} was decoded as absent / empty instead of being accepted or refused", path, text), case),
             Ok(Err(e)) if valid => r.violation(format!("C16|wire|{}|valid-token-rejected", path), format!("{}: valid token {:?} is rejected: {}", path, text, e), case),
             Ok(Err(_)) => r.outcome("wire:invalid-token-rejected"),
         }
@@ -471,6 +474,19 @@ fn token_paths(r: &mut Report, rt: &ConjureRuntime, s: &[u8]) {
         req.headers_mut().insert("x-verif", hv);
         let (parts, _) = req.into_parts();
         judge(r, "header_param", vcommon::catch(|| err_text(header_param::<BearerToken, FromPlainDecoder>(rt, &parts, "x-verif", "h"))));
+        // present and optional: the same verdict (an invalid value is not "absent")
+        judge(r, "header_param(optional)", vcommon::catch(|| err_text(header_param::<Option<BearerToken>, FromPlainOptionDecoder>(rt, &parts, "x-verif", "h")).and_then(|o| o.ok_or_else(|| ABSENT.to_string()))));
+    }
+    {
+        let uri: http::Uri = format!("/a?k={}", pct(s)).parse().unwrap();
+        let parts = parts_of(&uri, Some(&pct(s)));
+        let qp = parse_query_params(&parts);
+        let absent = |o: Option<BearerToken>| o.ok_or_else(|| ABSENT.to_string());
+        judge(r, "query_param(optional)", vcommon::catch(|| err_text(query_param::<Option<BearerToken>, FromPlainOptionDecoder>(rt, &qp, "k", "k")).and_then(absent)));
+        judge(r, "query_param(list)", vcommon::catch(|| err_text(query_param::<Vec<BearerToken>, FromPlainSeqDecoder<BearerToken>>(rt, &qp, "k", "k")).and_then(|v| v.into_iter().next().ok_or_else(|| ABSENT.to_string()))));
+        if !s.is_empty() {
+            judge(r, "path_param(optional)", vcommon::catch(|| err_text(path_param::<Option<BearerToken>, FromPlainOptionDecoder>(rt, &parts, "p", "p")).and_then(absent)));
+        }
     }
     // a valid token through the client encoders
     if valid {
@@ -508,6 +524,7 @@ fn rid_paths(r: &mut Report, rt: &ConjureRuntime, s: &str) {
             Ok(Ok(t)) if valid && t.as_str() == s => r.outcome("wire:valid-rid-accepted-unchanged"),
             Ok(Ok(t)) if valid => r.violation(format!("C16|wire|{}|accepted-rid-altered", path), format!("{}: rid {:?} arrives as {:?}", path, s, t.as_str()), case),
             Ok(Ok(t)) => r.violation(format!("C16|wire|{}|invalid-rid-accepted", path), format!("{}: {:?} is not a resource identifier but is accepted (as {:?})", path, s, t.as_str()), case),
+            Ok(Err(e)) if e == ABSENT => r.violation(format!("C16|wire|{}|present-value-decoded-as-absent", path), format!("{}: the present value {:?} was decoded as absent / empty instead of being accepted or refused", path, s), case),
             Ok(Err(e)) if valid => r.violation(format!("C16|wire|{}|valid-rid-rejected", path), format!("{}: valid rid {:?} is rejected: {}", path, s, e), case),
             Ok(Err(_)) => r.outcome("wire:invalid-rid-rejected"),
         }
@@ -533,6 +550,12 @@ fn rid_paths(r: &mut Report, rt: &ConjureRuntime, s: &str) {
         req.headers_mut().insert("x-verif", hv);
         let (parts, _) = req.into_parts();
         judge(r, "header_param", vcommon::catch(|| err_text(header_param::<ResourceIdentifier, FromPlainDecoder>(rt, &parts, "x-verif", "h"))));
+        judge(r, "header_param(optional)", vcommon::catch(|| err_text(header_param::<Option<ResourceIdentifier>, FromPlainOptionDecoder>(rt, &parts, "x-verif", "h")).and_then(|o| o.ok_or_else(|| ABSENT.to_string()))));
+    }
+    {
+        let absent = |o: Option<ResourceIdentifier>| o.ok_or_else(|| ABSENT.to_string());
+        judge(r, "query_param(optional)", vcommon::catch(|| err_text(query_param::<Option<ResourceIdentifier>, FromPlainOptionDecoder>(rt, &qp, "k", "k")).and_then(absent)));
+        judge(r, "query_param(set)", vcommon::catch(|| err_text(query_param::<BTreeSet<ResourceIdentifier>, FromPlainSeqDecoder<ResourceIdentifier>>(rt, &qp, "k", "k")).and_then(|v| v.into_iter().next().ok_or_else(|| ABSENT.to_string()))));
     }
     if valid {
         let t = ResourceIdentifier::new(s).unwrap();
